@@ -53,6 +53,7 @@ impl<'a> Lat<'a> {
                 Op::CallMask { node, slot, field, .. } => calls.push((*node, E::Mask(MASKS[(self.m.val(*slot, *field) % VMOD) as usize]))),
                 Op::CallShift { node, .. } => calls.push((*node, E::Shift)),
                 Op::CallSat { node, mask, .. } => calls.push((*node, E::Mask(*mask))),
+                Op::CallMax { node, .. } => calls.push((*node, E::Plain)),
                 Op::CallInc { node, slot, field, .. } => calls.push((*node, E::Inc(self.m.val(*slot, *field) % VMOD))),
                 Op::CallNot { node, .. } => calls.push((*node, E::Not)),
                 Op::If { slot, field, thr, then, els } => {
@@ -81,6 +82,21 @@ impl<'a> Lat<'a> {
     }
 
     fn eval_ops(&self, ops: &[Op], vals: &[u32], acc: &mut u32) {
+        if self.prog.maxplus {
+            for op in ops {
+                match op {
+                    Op::Read { slot, field } => *acc = (*acc).max(self.m.val(*slot, *field) % VMOD),
+                    Op::Call { node, .. } => *acc = (*acc).max(vals[*node as usize]),
+                    Op::CallMax { node, add, guard, .. } => {
+                        if *acc < MAXCAP && *acc >= *guard {
+                            *acc = (*acc).max((vals[*node as usize] + *add).min(MAXCAP));
+                        }
+                    }
+                    _ => {}
+                }
+            }
+            return;
+        }
         for op in ops {
             match op {
                 Op::Read { slot, field } => *acc |= 1 << (self.m.val(*slot, *field) % VMOD),
